@@ -5,4 +5,4 @@ From LJT Require Import gen.GenSubsamp model.Geometry.
 Extraction Language OCaml.
 Extraction "x_c20.ml" tj3YUVPlaneWidth tj3YUVPlaneHeight tj3YUVBufSize tj3YUVPlaneSize unified_layout
   unified_fns scaled_dim sf_tbl tjMCUWidth_tbl tjMCUHeight_tbl cfp_plane_w cfp_plane_h enc_plane_w enc_plane_h
-  dec_plane_w dec_plane_h dtp_dctsize.
+  dec_plane_w dec_plane_h dtp_dctsize getSubsamp3.
